@@ -519,6 +519,10 @@ func RunChains(ctx *hx.Ctx, prop string, cases []*ChainCase) {
 		}
 		ctx.Cov.Case("chain:"+string(canon), ntx >= 2, nil)
 		if f := RunChain(ctx, prop, c, true, orc); f != nil {
+			if reported["chain:"+f.Class] {
+				continue
+			}
+			reported["chain:"+f.Class] = true
 			// shrink: drop whole blocks from the end, then single txs
 			cur := c
 			for changed := true; changed; {
